@@ -44,7 +44,7 @@ theorem Inv_restart {s : Sys} (h : ApiOK s) : Inv (restart s) := by
   · intro j hj; exact hrv j (hver j hj)
   · intro j1 j2 h1 h2 hn
     have := nodup_names_eq hnd (hver j1 h1) (hver j2 h2) hn
-    subst this; exact ⟨sameSpec_refl _, fun _ => rfl⟩
+    subst this; exact ⟨sameFixed_refl _, fun _ => rfl⟩
   · intro k hk; simp [restart, WQ.keys] at hk
   · intro f hf; simp [restart] at hf
 
@@ -347,6 +347,38 @@ theorem Inv_finish {s : Sys} (h : Inv s) (n : String) : Inv (mutateJob s n finis
       have : bonus cur { finish cur with rv := s.rv + 1 } = 0 := by
         simp [bonus, finish, JobV.isActive]
       simp [this]
+
+/-- the user edits `startAfter` of an authoritatively unstarted Job with a start policy: a new
+version with the same fixed spec; well-formed because `hasPolicy = true`; the store's counter is
+not concerned (the Job stays unstarted) -/
+theorem Inv_editStartAfter {s : Sys} (h : Inv s) (n : String) (t : Option Int) :
+    Inv (editStartAfter s n t) := by
+  unfold editStartAfter
+  cases hf : findJob s.jobs n with
+  | none => exact h
+  | some cur =>
+    simp only
+    split
+    · rename_i hg
+      simp only [Bool.and_eq_true, Bool.not_eq_true'] at hg
+      obtain ⟨hp, hst⟩ := hg
+      unfold mutateJob
+      rw [hf]
+      simp only
+      have hname : cur.name = n := findJob_some_name hf
+      have hwfc := h.verWf cur (Or.inl (findJob_some_mem hf))
+      refine Inv_update' (cur := cur) (nj := { cur with startAfter := t, rv := s.rv + 1 }) h ?_ ?_ ?_ rfl
+        ?_ rfl rfl rfl rfl rfl rfl ?_ rfl (fun f hf => hf)
+      · simp only [hname, hf]
+      · simp [sameFixed]
+      · exact ⟨hwfc.1, fun hx => by simp [hp] at hx⟩
+      · intro hx; exact hx
+      · intro uid
+        have : bonus cur { cur with startAfter := t, rv := s.rv + 1 } = 0 := by
+          simp only [bonus, JobV.isActive, JobV.isStarted] at hst ⊢
+          simp [hst]
+        simp [this]
+    · exact h
 
 theorem Inv_removeJob {s : Sys} (h : Inv s) (n : String) : Inv (removeJob s n) := by
   unfold removeJob
